@@ -512,6 +512,161 @@ def matrix_valued_search(ctx):
     ctx.ob("C05_search_matrix_valued", bad == 0, "search", f"{bad} failures" if bad else "")
 
 
+def structured_unitary_search(ctx):
+    """`gates.Unitary` built from STRUCTURED matrices (a Haar-random matrix has none of these
+    symmetries, so a shortcut keyed on one of them is invisible to `matrix_valued_search`):
+    diagonal phases, complex symmetric exp(-i t H) with H real symmetric (the matrices of
+    S/T/RX/RZ/iSWAP/RZZ/exp(-i t (XX + a ZZ)) belong here), O D O^T, real orthogonal (rotation
+    and reflection), Hermitian unitaries, complex antisymmetric-generated, unitary-with-real-
+    entries-times-i, and a generic one; 1-3 targets in any order, 0-2 controls.  `dagger()`,
+    `controlled_by(...).dagger()`, `dagger().controlled_by(...)`, `on_qubits(...).dagger()`,
+    `dagger().dagger()` and `Circuit.invert()` are compared with the conjugate transpose of the
+    explicitly embedded (and controlled) matrix."""
+    from qibo import Circuit, gates
+
+    nb = qgates.np_backend()
+    rng = ctx.rng
+
+    def gmat(d, real=False):
+        if real:
+            return np.array([[rng.gauss(0, 1) for _ in range(d)] for _ in range(d)])
+        return np.array([[complex(rng.gauss(0, 1), rng.gauss(0, 1)) for _ in range(d)] for _ in range(d)])
+
+    def orthogonal(d):
+        q, r = np.linalg.qr(gmat(d, real=True))
+        return q * np.sign(np.diag(r))
+
+    def haar(d):
+        q, r = np.linalg.qr(gmat(d))
+        return q * (np.diag(r) / np.abs(np.diag(r)))
+
+    def expi(h):  # exp(-i h) for a Hermitian / real symmetric h, through its eigen-decomposition
+        w, v = np.linalg.eigh(h)
+        return (v * np.exp(-1j * w)) @ v.conj().T
+
+    def phases(d):
+        return np.exp(1j * np.array([rng.uniform(-3, 3) for _ in range(d)]))
+
+    X = np.array([[0, 1], [1, 0]], dtype=complex)
+    Z = np.diag([1, -1]).astype(complex)
+
+    def kron_all(ms):
+        out = np.eye(1, dtype=complex)
+        for m in ms:
+            out = np.kron(out, m)
+        return out
+
+    def structured(kind, k):
+        d = 2**k
+        if kind == "diagonal":  # S, T, RZ, RZZ, CZ-with-phase ... : exactly symmetric, not Hermitian
+            ph = phases(d)
+            ph[0] = 1.0
+            if rng.random() < 0.4:  # exact quarter / eighth turns as in S and T
+                ph = np.array([np.exp(1j * math.pi * rng.randint(0, 7) / 4) for _ in range(d)])
+                ph[rng.randrange(d)] = 1j
+            return np.diag(ph)
+        if kind == "exp-real-symmetric":  # exp(-i t H), H real symmetric: complex symmetric
+            a = gmat(d, real=True)
+            return expi(rng.uniform(0.2, 1.5) * (a + a.T) / 2)
+        if kind == "exp-pauli":  # exp(-i t (X..X + a Z..Z)) (RX, iSWAP-like, RXX/RZZ mixtures): entries exactly symmetric
+            t, a = rng.uniform(0.2, 1.5), rng.choice([0.0, 0.5, 1.0])
+            h = kron_all([X] * k) + a * kron_all([Z] * k)
+            # X..X and Z..Z commute for even k, anticommute for odd k (then h^2 = (1 + a^2) 1)
+            if k % 2 == 0:
+                xx, zz = kron_all([X] * k), kron_all([Z] * k)
+                return (math.cos(t) * np.eye(d) - 1j * math.sin(t) * xx) @ (math.cos(a * t) * np.eye(d) - 1j * math.sin(a * t) * zz)
+            w = math.sqrt(1 + a * a)
+            return math.cos(t * w) * np.eye(d) - 1j * math.sin(t * w) / w * h
+        if kind == "ODOt":  # O D O^T, O real orthogonal: complex symmetric up to rounding
+            o = orthogonal(d)
+            m = (o * phases(d)) @ o.T
+            return (m + m.T) / 2 if rng.random() < 0.5 else m
+        if kind == "real-orthogonal":  # real, not symmetric: dagger = transpose
+            return orthogonal(d)
+        if kind == "real-symmetric":  # reflection: real symmetric, its own inverse
+            o = orthogonal(d)
+            s = np.array([rng.choice([-1.0, 1.0]) for _ in range(d)])
+            m = (o * s) @ o.T
+            return (m + m.T) / 2
+        if kind == "hermitian":  # complex Hermitian unitary: equal to its dagger, not to its transpose
+            v = haar(d)
+            s = np.array([rng.choice([-1.0, 1.0]) for _ in range(d)])
+            m = (v * s) @ v.conj().T
+            return (m + m.conj().T) / 2
+        if kind == "i-times-real":  # i * (real orthogonal): conj = -matrix
+            return 1j * orthogonal(d)
+        if kind == "phase-times-symmetric":  # e^{i phi} * (real symmetric reflection): symmetric, dagger != matrix
+            o = orthogonal(d)
+            s = np.array([rng.choice([-1.0, 1.0]) for _ in range(d)])
+            m = (o * s) @ o.T
+            return np.exp(1j * rng.uniform(0.3, 2.8)) * (m + m.T) / 2
+        return haar(d)
+
+    kinds = ["diagonal", "exp-real-symmetric", "exp-pauli", "ODOt", "real-orthogonal", "real-symmetric",
+             "hermitian", "i-times-real", "phase-times-symmetric", "generic"]
+    bad = 0
+    reps = 6 if ctx.thorough else 2
+    for kind in kinds:
+        for rep in range(reps):
+            n = rng.randint(2, 4)
+            k = rng.randint(1, min(3, n)) if rep else rng.randint(1, 2)
+            qs = rng.sample(range(n), k)
+            if rep % 2 and k > 1:
+                qs = sorted(qs, reverse=True)  # descending targets
+            u = structured(kind, k)
+            if not np.allclose(u.conj().T @ u, np.eye(2**k), atol=1e-10):  # generator slip, not a finding
+                ctx.stat("structured:generator-not-unitary")
+                continue
+            rest = [q for q in range(n) if q not in qs]
+            cs = rng.sample(rest, rng.randint(0, min(2, len(rest))))
+            perm = list(range(n))
+            rng.shuffle(perm)
+            qmap = dict(enumerate(perm))
+            E = qgates.embed(n, list(qs), u)
+            Ec = qgates.controlled(n, cs, E) if cs else E
+            Eo = qgates.embed(n, [perm[q] for q in qs], u)
+            usrc = f"np.array({[[complex(z) for z in row] for row in u.tolist()]!r})"
+            pre = ("import numpy as np\nfrom qibo import gates, Circuit\n" f"u = {usrc}\n" f"new = lambda: gates.Unitary(u, *{list(qs)})\n")
+
+            def new():
+                return gates.Unitary(np.array(u), *qs)
+
+            def circ_inv(with_controls):
+                c = Circuit(n)
+                c.add(new().controlled_by(*cs) if with_controls else new())
+                return np.asarray(c.invert().unitary(nb))
+
+            checks = [
+                ("dagger", lambda: qgates.gate_full_matrix(new().dagger(), n), E.conj().T, "r = new().dagger()"),
+                ("dagger-twice", lambda: qgates.gate_full_matrix(new().dagger().dagger(), n), E, "r = new().dagger().dagger()"),
+                ("circuit_invert", lambda: circ_inv(False), E.conj().T, f"c = Circuit({n}); c.add(new()); r = c.invert()"),
+                ("on_qubits_dagger", lambda: qgates.gate_full_matrix(new().on_qubits(qmap).dagger(), n), Eo.conj().T, f"r = new().on_qubits({qmap}).dagger()"),
+            ]
+            if cs:
+                checks += [
+                    (f"cb{len(cs)}_dagger", lambda: qgates.gate_full_matrix(new().controlled_by(*cs).dagger(), n), Ec.conj().T, f"r = new().controlled_by(*{cs}).dagger()"),
+                    (f"dagger_cb{len(cs)}", lambda: qgates.gate_full_matrix(new().dagger().controlled_by(*cs), n), Ec.conj().T, f"r = new().dagger().controlled_by(*{cs})"),
+                    (f"circuit_invert_cb{len(cs)}", lambda: circ_inv(True), Ec.conj().T, f"c = Circuit({n}); c.add(new().controlled_by(*{cs})); r = c.invert()"),
+                ]
+            for name, fn, expected, snippet in checks:
+                ctx.case(("structured-unitary", kind, name, tuple(qs), tuple(cs)))
+                ctx.stat(f"structured:{kind}")
+                try:
+                    got = fn()
+                    dev = float(np.abs(got - expected).max())
+                    ok = dev < 1e-9
+                    obs = None if ok else f"deviation {dev:.3g}: " + str(np.round(got, 6).tolist())
+                except Exception as e:  # noqa: BLE001
+                    ok, obs = False, f"raises {type(e).__name__}: {e}"
+                if not ok:
+                    bad += 1
+                    ctx.fail(f"structured:{name.replace('cb1', 'cb').replace('cb2', 'cb')}:{kind}",
+                             f"{name} of gates.Unitary with a {kind} matrix on targets {list(qs)}" + (f", controls {cs}" if "cb" in name else "") + f" (n={n}) is not the conjugate transpose of the gate's operator",
+                             pre + snippet + f"\nexpected = np.array({np.round(expected, 12).tolist()})\n# compare the full {n}-qubit matrix of r (gate: embed its matrix on its qubits; circuit: r.unitary()) with `expected`\n",
+                             expected=str(np.round(expected, 6).tolist())[:400], observed=str(obs)[:400], broken=["C05_search_structured_unitary"])
+    ctx.ob("C05_search_structured_unitary", bad == 0, "search", f"{bad} failures" if bad else "")
+
+
 def fused_search(ctx):
     """fused gates whose members carry controls added by `controlled_by` (H, Unitary, RX with two
     controls, fSim …) next to members with built-in controls: `FusedGate.dagger()`, the inverse of
@@ -589,6 +744,7 @@ def run(ctx):
     gate_search(ctx, raised)
     circuit_search(ctx)
     matrix_valued_search(ctx)
+    structured_unitary_search(ctx)
     fused_search(ctx)
     from props import basis_meas
     basis_meas.run(ctx, PROP, ['copy', 'deepcopy', 'deepcopy-twice', 'on_qubits-identity', 'on_qubits-shifted', 'add-empty', 'invert-invert', 'deepcopy-invert-invert'])
